@@ -217,6 +217,8 @@ def step (ctx : Scope) (i : Instr) (s : VmState) : Res VmState :=
   | .swap => match s.stack with
     | a :: b :: rest => .ok (nxt { s with stack := b :: a :: rest })
     | _ => .error .outOfFragment
+  -- macros and calls are executed by the extended model `MJ.VmM`
+  | _ => .error .outOfFragment
 
 /-- run until the program counter leaves the code -/
 def run (ctx : Scope) (code : List Instr) : Nat → VmState → Res VmState
